@@ -27,8 +27,8 @@ func init() {
 			"values are unique ints, so a read identifies the Put that supplied it",
 		},
 		Families: []core.Family{
-			{Name: "long-chain", N: core.TierN(120, 1500), Batch: 4, Run: c01Long},
-			{Name: "short-porcupine", N: core.TierN(1500, 20000), Batch: 50, Run: c01Short},
+			{Name: "long-chain", N: core.TierN(120, 6000), Batch: 4, Run: c01Long},
+			{Name: "short-porcupine", N: core.TierN(1500, 80000), Batch: 50, Run: c01Short},
 		},
 	})
 }
